@@ -2,6 +2,8 @@ package main
 
 import (
 	"bufio"
+	"bytes"
+	"io"
 	"encoding/hex"
 	"encoding/json"
 	"fmt"
@@ -244,4 +246,34 @@ func safely(f func() string) (res string) {
 		}
 	}()
 	return f()
+}
+
+// newDataReader: the decoders are given the same bytes through different readers — a *bytes.Reader, a
+// *bytes.Buffer (what the repository itself decodes payloads from), a reader that hands out one byte per
+// call.  Which one follows from the data, so that a line replays the same way.  The second result tells
+// how many bytes are left unread.
+func newDataReader(data []byte) (io.Reader, func() int) {
+	k := len(data)
+	if len(data) > 0 {
+		k += int(data[len(data)-1])
+	}
+	switch k % 3 {
+	case 0:
+		r := bytes.NewReader(data)
+		return r, r.Len
+	case 1:
+		b := bytes.NewBuffer(append([]byte(nil), data...))
+		return b, b.Len
+	}
+	r := bytes.NewReader(data)
+	return oneByteReader{r}, r.Len
+}
+
+type oneByteReader struct{ r io.Reader }
+
+func (o oneByteReader) Read(p []byte) (int, error) {
+	if len(p) == 0 {
+		return 0, nil
+	}
+	return o.r.Read(p[:1])
 }
